@@ -324,6 +324,16 @@ def final_lattice_msgs(m, W, last):
                 if any(e.logprob < s[W - 1] for e in exp):
                     msgs.append(f"column {i} layer {k}: {len(exp)} entries expanded with W={W}, not all tied with the W-th best {s[W - 1]}: "
                                 f"{sorted(((e.logprob, e.delayed) for e in live), reverse=True)}")
+    # one-shot run: whatever has a successor in the lattice was expanded, so it must not be a postponed candidate
+    # (only in round 0: after a widening an already expanded entry can legitimately be postponed again)
+    if m.expand_now == 0:
+        for i in range(last + 1):
+            for k, layer in enumerate(m.lattice[i].o):
+                for e in layer.values():
+                    for p in list(e.prev) + list(e.prev_other):
+                        if not p.stop and p.delayed > 0:
+                            msgs.append(f"{p.key} is postponed (delayed={p.delayed}) but was expanded: {e.key} is its successor")
+                            return msgs, postponed
     return msgs, postponed
 
 
